@@ -187,15 +187,28 @@ def gen_header(rnd):
     return out
 
 
+CELL_TEXTS = ["SHAKE 'N' BAKE DINER", 'THE "BIG" STORE', 'AMAZON; MKTP US', 'A|B|C', 'TAB\tSEP', 'COFFEE SHOP #12', "O'REILLY 'S' BOOKS", 'plain', 'x y z',
+              "'QUOTED' START", 'semi;colon;rich;text', 'pipe | spaced | text', 'UBER *EATS', 'a:b:c:d']
+
+
 def write_csv(path, header, rnd):
+    """An ordinary comma-separated file; cell texts contain other would-be delimiters and quote characters (written unquoted where legal), so
+    that anything that guesses the dialect from the content has something to be confused by."""
     import csv
+    rows = []
+    rich = rnd.random() < .5
+    for i in range(rnd.randint(1, 4)):
+        rows.append(['01/%02d/2025' % (i + 1) if 'date' in h.lower() else ('%d.%02d' % (10 + i, i)) if any(
+            k in h.lower() for k in ('amount', 'debit', 'charge', 'payment', 'balance')) else
+            (rnd.choice(CELL_TEXTS) if rich else 'VAL %d %s' % (i, h[:4])) for h in header])
     with open(path, 'w', newline='', encoding='utf-8') as f:
         w = csv.writer(f)
         w.writerow(header)
-        for i in range(rnd.randint(1, 4)):
-            w.writerow(['01/%02d/2025' % (i + 1) if 'date' in h.lower() else ('%d.%02d' % (10 + i, i)) if any(
-                k in h.lower() for k in ('amount', 'debit', 'charge', 'payment', 'balance')) else 'VAL %d %s' % (i, h[:4])
-                        for h in header])
+        for r in rows:
+            if rich and not any(',' in c or '\n' in c for c in r):
+                f.write(','.join(r) + '\r\n')        # unquoted, as banks write them
+            else:
+                w.writerow(r)
 
 
 def parse_inspect(out):
